@@ -302,6 +302,13 @@ impl Report {
         for (k, v) in &self.extra {
             coverage.insert(k.clone(), v.clone());
         }
+        let (repeated, confirmed) = crate::procdrv::confirmation_counts();
+        if repeated > 0 {
+            coverage.insert(
+                "process_runs_repeated_alone_after_missing_a_wall_clock_limit".into(),
+                json!({"repeated": repeated, "missed_the_longer_limit_again": confirmed}),
+            );
+        }
         let seed: i64 = std::env::var("VERIF_SEED")
             .ok()
             .and_then(|s| s.parse().ok())
@@ -390,7 +397,29 @@ pub const MAX_KEPT_FAILURES: usize = 20_000;
 // watchdog: a case that does not terminate is a violation (hang), not a stuck check
 // ------------------------------------------------------------------------------------------
 use std::sync::Mutex;
-static WATCH: Mutex<Vec<Option<(Instant, String, String, u64)>>> = Mutex::new(Vec::new());
+/// (start, property, case, limit in s, CPU clock of the working thread, CPU time at start in ns)
+type WatchEntry = (Instant, String, String, u64, libc::clockid_t, u64);
+static WATCH: Mutex<Vec<Option<WatchEntry>>> = Mutex::new(Vec::new());
+
+fn cpu_ns(clock: libc::clockid_t) -> u64 {
+    let mut ts = libc::timespec { tv_sec: 0, tv_nsec: 0 };
+    if unsafe { libc::clock_gettime(clock, &mut ts) } != 0 {
+        return 0;
+    }
+    ts.tv_sec as u64 * 1_000_000_000 + ts.tv_nsec as u64
+}
+
+fn own_cpu_clock() -> libc::clockid_t {
+    let mut c: libc::clockid_t = libc::CLOCK_THREAD_CPUTIME_ID;
+    unsafe { libc::pthread_getcpuclockid(libc::pthread_self(), &mut c) };
+    c
+}
+
+/// A case counts as not terminating when its thread has *consumed* `limit` seconds of CPU time
+/// (a loop), or when `WALL_FACTOR x limit` seconds of wall time have passed (blocked for good).
+/// Wall time alone at the small limit is not a verdict: on a machine that is over-subscribed by
+/// other jobs a trivial case was once descheduled long enough to exceed 60 s of wall time.
+const WALL_FACTOR: u64 = 10;
 static WATCHDOG_STARTED: std::sync::atomic::AtomicBool = std::sync::atomic::AtomicBool::new(false);
 static DEFAULT_LIMIT: AtomicUsize = AtomicUsize::new(120);
 thread_local! {
@@ -431,7 +460,8 @@ pub fn watch_limit(property: &str, limit_s: u64, case: impl FnOnce() -> String) 
         // nested: leave the outer entry in place; the guard of the inner one must not clear it
         return WatchGuard(usize::MAX);
     }
-    w[slot] = Some((Instant::now(), property.to_string(), case(), limit_s));
+    let clock = own_cpu_clock();
+    w[slot] = Some((Instant::now(), property.to_string(), case(), limit_s, clock, cpu_ns(clock)));
     WatchGuard(slot)
 }
 
@@ -449,24 +479,47 @@ pub fn start_watchdog(limit_s: u64) {
         std::thread::sleep(std::time::Duration::from_millis(500));
         let hit = {
             let w = WATCH.lock().unwrap();
-            w.iter().flatten().find(|(t, _, _, l)| t.elapsed().as_secs() >= *l).cloned()
+            // the CPU clocks are read under the lock: an entry is cleared by its own thread
+            // (under the same lock) before that thread can end
+            w.iter()
+                .flatten()
+                .find(|(t, _, _, l, clock, cpu0)| {
+                    let wall = t.elapsed().as_secs();
+                    wall >= *l && (wall >= WALL_FACTOR * *l || cpu_ns(*clock).saturating_sub(*cpu0) / 1_000_000_000 >= *l)
+                })
+                .map(|(t, p, c, l, clock, cpu0)| (p.clone(), c.clone(), *l, t.elapsed().as_secs(), cpu_ns(*clock).saturating_sub(*cpu0) / 1_000_000_000))
         };
-        if let Some((_, property, case, limit_s)) = hit {
-            let dir = verif_dir().join("replays").join(&property);
-            let _ = std::fs::create_dir_all(&dir);
-            let path = dir.join("hang.json");
-            let doc = format!(
-                "{{\"property\": \"{}\", \"key\": \"hang\", \"case\": {}, \"detail\": \"case did not terminate within {} s\"}}",
-                property, case, limit_s
+        if let Some((property, case, limit_s, wall_s, cpu_s)) = hit {
+            hang_exit(
+                &property,
+                &case,
+                &format!("case did not terminate: {} s of CPU time consumed by its thread, {} s of wall time (limit {} s CPU, {} s wall)", cpu_s, wall_s, limit_s, WALL_FACTOR * limit_s),
             );
-            let _ = std::fs::write(&path, doc);
-            println!("VIOLATION property={} replay={}", property, path.display());
-            println!("  key=hang: the case did not terminate within {} s", limit_s);
-            use std::io::Write;
-            let _ = std::io::stdout().flush();
-            exit_process(1);
         }
     });
+}
+
+/// The case the current thread has registered with `watch` (property, case JSON).
+pub fn current_case() -> Option<(String, String)> {
+    let slot = WATCH_SLOT.with(|s| s.get());
+    if slot == usize::MAX {
+        return None;
+    }
+    WATCH.lock().ok().and_then(|w| w.get(slot).cloned().flatten()).map(|e| (e.1, e.2))
+}
+
+/// Writes `replays/<property>/hang.json`, prints the VIOLATION line and ends the check.
+pub fn hang_exit(property: &str, case: &str, detail: &str) -> ! {
+    let dir = verif_dir().join("replays").join(property);
+    let _ = std::fs::create_dir_all(&dir);
+    let path = dir.join("hang.json");
+    let doc = format!("{{\"property\": \"{}\", \"key\": \"hang\", \"case\": {}, \"detail\": {}}}", property, case, serde_json::Value::String(detail.to_string()));
+    let _ = std::fs::write(&path, doc);
+    println!("VIOLATION property={} replay={}", property, path.display());
+    println!("  key=hang: {}", detail);
+    use std::io::Write;
+    let _ = std::io::stdout().flush();
+    exit_process(1)
 }
 
 // ------------------------------------------------------------------------------------------
@@ -483,7 +536,7 @@ extern "C" fn exit_guard() {
     let property = GUARD_PROPERTY.lock().map(|g| g.clone()).unwrap_or_default();
     let cases: Vec<String> = WATCH
         .lock()
-        .map(|w| w.iter().flatten().map(|(_, _, c, _)| c.clone()).collect())
+        .map(|w| w.iter().flatten().map(|(_, _, c, _, _, _)| c.clone()).collect())
         .unwrap_or_default();
     let dir = verif_dir().join("replays").join(&property);
     let _ = std::fs::create_dir_all(&dir);
